@@ -41,7 +41,7 @@ theorem C12_bound (R : Nat) (wd : Bool) (es : List HEv) (s : HS) (h : (cur R wd)
         | some a1 =>
           simp only [hst] at hr
           rw [ih a1 b hr]
-          cases e <;> simp only [HS.step] at hst <;> (repeat' split at hst) <;> simp_all <;> (try (subst hst; rfl))
+          cases e <;> simp only [HS.step] at hst <;> (repeat' split at hst) <;> simp_all <;> (try (subst hst; first | rfl | simp))
     exact this es _ s h
   have := inv.cersLe
   rw [hR] at this
